@@ -39,27 +39,29 @@ theorem thr_other {σ σ' : St} (M : MInv σ) {x u : Nat} (hux : u ≠ x) (hxi :
 /-- the stepping thread's own facts at `m1` (writer count load; sole writer switches to the single-writer path) -/
 theorem tloc_m1 (σ : St) (x inp : Nat) (L : TLoc σ (σ.th x)) (hpc : (σ.th x).pc = .m1) :
     TLoc (stepRun σ x inp).2 ((stepRun σ x inp).2.th x) := by
-  obtain ⟨l1, l2, l3, l4, l5, l6, l7, l8, l9, l10, l11, l12, l13, l14, l15, l16, l17, l18, l19, l20, l21, l22⟩ := L
-  rw [hpc] at l1 l2 l3 l4 l5 l6 l7 l8 l9 l10 l11 l12 l13 l14 l15 l16 l17 l18 l19 l20 l21 l22
+  obtain ⟨l1, l2, l3, l4, l5, l6, l7, l8, l9, l10, l11, l12, l13, l14, l15, l16, l17, l18, l19, l20, l21, l22, l23⟩ := L
+  simp only [Th.sgOn] at l23
+  rw [hpc] at l1 l2 l3 l4 l5 l6 l7 l8 l9 l10 l11 l12 l13 l14 l15 l16 l17 l18 l19 l20 l21 l22 l23
   simp only [stepRun, hpc]
   split
   all_goals
-    refine ⟨?_, ?_, ?_, ?_, ?_, ?_, ?_, ?_, ?_, ?_, ?_, ?_, ?_, ?_, ?_, ?_, ?_, ?_, ?_, ?_, ?_, ?_⟩
+    refine ⟨?_, ?_, ?_, ?_, ?_, ?_, ?_, ?_, ?_, ?_, ?_, ?_, ?_, ?_, ?_, ?_, ?_, ?_, ?_, ?_, ?_, ?_, ?_⟩
   all_goals (simp_all [St.goto, St.gotoF, St.flush, St.setTh, St.setHd, upd,
       PC.sendOp, PC.singleSendX, PC.singleSend, PC.recvOp, PC.recvActive, PC.viewPC, PC.cloneS, PC.remPC, PC.afterNew,
-      PC.addPC, PC.kOK, PC.newPath, Outer.futConv, Outer.viewCall]; done)
+      PC.addPC, PC.kOK, PC.newPath, PC.sgFlag, Th.sgOn, Outer.futConv, Outer.viewCall]; done)
 
 theorem tloc_la1 (σ : St) (x inp : Nat) (L : TLoc σ (σ.th x)) (hpc : (σ.th x).pc = .la1) :
     TLoc (stepRun σ x inp).2 ((stepRun σ x inp).2.th x) := by
-  obtain ⟨l1, l2, l3, l4, l5, l6, l7, l8, l9, l10, l11, l12, l13, l14, l15, l16, l17, l18, l19, l20, l21, l22⟩ := L
-  rw [hpc] at l1 l2 l3 l4 l5 l6 l7 l8 l9 l10 l11 l12 l13 l14 l15 l16 l17 l18 l19 l20 l21 l22
+  obtain ⟨l1, l2, l3, l4, l5, l6, l7, l8, l9, l10, l11, l12, l13, l14, l15, l16, l17, l18, l19, l20, l21, l22, l23⟩ := L
+  simp only [Th.sgOn] at l23
+  rw [hpc] at l1 l2 l3 l4 l5 l6 l7 l8 l9 l10 l11 l12 l13 l14 l15 l16 l17 l18 l19 l20 l21 l22 l23
   simp only [stepRun, hpc, stepRun.stepLa2]
   repeat' split
   all_goals
-    refine ⟨?_, ?_, ?_, ?_, ?_, ?_, ?_, ?_, ?_, ?_, ?_, ?_, ?_, ?_, ?_, ?_, ?_, ?_, ?_, ?_, ?_, ?_⟩
+    refine ⟨?_, ?_, ?_, ?_, ?_, ?_, ?_, ?_, ?_, ?_, ?_, ?_, ?_, ?_, ?_, ?_, ?_, ?_, ?_, ?_, ?_, ?_, ?_⟩
   all_goals (simp_all [St.goto, St.gotoF, St.flush, St.setTh, St.setHd, upd,
       PC.sendOp, PC.singleSendX, PC.singleSend, PC.recvOp, PC.recvActive, PC.viewPC, PC.cloneS, PC.remPC, PC.afterNew,
-      PC.addPC, PC.kOK, PC.newPath, Outer.futConv, Outer.viewCall]; done)
+      PC.addPC, PC.kOK, PC.newPath, PC.sgFlag, Th.sgOn, Outer.futConv, Outer.viewCall]; done)
 
 /-- what an `m1` / `la1` step does to the table: at most `uni := true` on the thread's own handle -/
 theorem uni_step_facts (σ : St) (x inp : Nat) (M : MInv σ) (h : (σ.th x).pc = .m1 ∨ (σ.th x).pc = .la1) :
@@ -208,7 +210,7 @@ theorem minv_run_uni {σ : St} (x inp : Nat) (M : MInv σ) (h : (σ.th x).pc = .
 macro "tl_auto" : tactic =>
   `(tactic| (simp_all [St.goto, St.gotoF, St.flush, St.setTh, St.setHd, upd,
       PC.sendOp, PC.singleSendX, PC.singleSend, PC.recvOp, PC.recvActive, PC.viewPC, PC.cloneS, PC.remPC, PC.afterNew,
-      PC.addPC, PC.kOK, PC.newPath, Outer.futConv, Outer.viewCall, newHd, newHd0]; done))
+      PC.addPC, PC.kOK, PC.newPath, PC.sgFlag, Th.sgOn, Outer.futConv, Outer.viewCall, newHd, newHd0]; done))
 
 /-- excl / nginj across a step of `x` whose new program point is not a creating one or keeps `ng`, and that never
 becomes idle -/
@@ -263,10 +265,11 @@ theorem minv_run_cs1 {σ : St} (x inp : Nat) (M : MInv σ) (hpc : (σ.th x).pc =
   have e_ring : (stepRun σ x inp).2.ring = σ.ring := by rw [e]; rfl
   have e_est : (stepRun σ x inp).2.est = σ.est := by rw [e]; rfl
   have Lx : TLoc (stepRun σ x inp).2 ((stepRun σ x inp).2.th x) := by
-    obtain ⟨l1, l2, l3, l4, l5, l6, l7, l8, l9, l10, l11, l12, l13, l14, l15, l16, l17, l18, l19, l20, l21, l22⟩ := M.thr x
-    rw [hpc] at l1 l2 l3 l4 l5 l6 l7 l8 l9 l10 l11 l12 l13 l14 l15 l16 l17 l18 l19 l20 l21 l22
+    obtain ⟨l1, l2, l3, l4, l5, l6, l7, l8, l9, l10, l11, l12, l13, l14, l15, l16, l17, l18, l19, l20, l21, l22, l23⟩ := M.thr x
+    simp only [Th.sgOn] at l23
+    rw [hpc] at l1 l2 l3 l4 l5 l6 l7 l8 l9 l10 l11 l12 l13 l14 l15 l16 l17 l18 l19 l20 l21 l22 l23
     rw [e]
-    refine ⟨?_, ?_, ?_, ?_, ?_, ?_, ?_, ?_, ?_, ?_, ?_, ?_, ?_, ?_, ?_, ?_, ?_, ?_, ?_, ?_, ?_, ?_⟩
+    refine ⟨?_, ?_, ?_, ?_, ?_, ?_, ?_, ?_, ?_, ?_, ?_, ?_, ?_, ?_, ?_, ?_, ?_, ?_, ?_, ?_, ?_, ?_, ?_⟩
     all_goals tl_auto
   refine ⟨by rw [e_wr, e_sl, M.wr]; simp, by intro s; rw [e_nc, e_cl]; exact M.nc s, ?_, excl_step x inp M hxi,
     ?_, ?_, ?_, ?_, ?_, ?_, ?_, ?_, ?_⟩
@@ -315,10 +318,11 @@ theorem minv_run_ds1 {σ : St} (x inp : Nat) (M : MInv σ) (hpc : (σ.th x).pc =
   have e_est : (stepRun σ x inp).2.est = σ.est := by rw [e]; rfl
   have hbusy := ((M.thr x).busy hxi).1
   have Lx : TLoc (stepRun σ x inp).2 ((stepRun σ x inp).2.th x) := by
-    obtain ⟨l1, l2, l3, l4, l5, l6, l7, l8, l9, l10, l11, l12, l13, l14, l15, l16, l17, l18, l19, l20, l21, l22⟩ := M.thr x
-    rw [hpc] at l1 l2 l3 l4 l5 l6 l7 l8 l9 l10 l11 l12 l13 l14 l15 l16 l17 l18 l19 l20 l21 l22
+    obtain ⟨l1, l2, l3, l4, l5, l6, l7, l8, l9, l10, l11, l12, l13, l14, l15, l16, l17, l18, l19, l20, l21, l22, l23⟩ := M.thr x
+    simp only [Th.sgOn] at l23
+    rw [hpc] at l1 l2 l3 l4 l5 l6 l7 l8 l9 l10 l11 l12 l13 l14 l15 l16 l17 l18 l19 l20 l21 l22 l23
     rw [e]
-    refine ⟨?_, ?_, ?_, ?_, ?_, ?_, ?_, ?_, ?_, ?_, ?_, ?_, ?_, ?_, ?_, ?_, ?_, ?_, ?_, ?_, ?_, ?_⟩
+    refine ⟨?_, ?_, ?_, ?_, ?_, ?_, ?_, ?_, ?_, ?_, ?_, ?_, ?_, ?_, ?_, ?_, ?_, ?_, ?_, ?_, ?_, ?_, ?_⟩
     all_goals tl_auto
   refine ⟨by rw [e_wr, e_sl, M.wr, List.length_erase_of_mem hg], by intro s; rw [e_nc, e_cl]; exact M.nc s, ?_,
     excl_step x inp M hxi, ?_, ?_, ?_, ?_, ?_, ?_, ?_, ?_, ?_⟩
@@ -386,10 +390,11 @@ theorem minv_run_cr1 {σ : St} (x inp : Nat) (M : MInv σ) (hpc : (σ.th x).pc =
   have hngne : (σ.th x).ng ≠ (σ.th x).g := by
     intro e'; have := c4.2.2.2.1; rw [e', hbusy] at this; cases this
   have Lx : TLoc (stepRun σ x inp).2 ((stepRun σ x inp).2.th x) := by
-    obtain ⟨l1, l2, l3, l4, l5, l6, l7, l8, l9, l10, l11, l12, l13, l14, l15, l16, l17, l18, l19, l20, l21, l22⟩ := M.thr x
-    rw [hpc] at l1 l2 l3 l4 l5 l6 l7 l8 l9 l10 l11 l12 l13 l14 l15 l16 l17 l18 l19 l20 l21 l22
+    obtain ⟨l1, l2, l3, l4, l5, l6, l7, l8, l9, l10, l11, l12, l13, l14, l15, l16, l17, l18, l19, l20, l21, l22, l23⟩ := M.thr x
+    simp only [Th.sgOn] at l23
+    rw [hpc] at l1 l2 l3 l4 l5 l6 l7 l8 l9 l10 l11 l12 l13 l14 l15 l16 l17 l18 l19 l20 l21 l22 l23
     rw [e]
-    refine ⟨?_, ?_, ?_, ?_, ?_, ?_, ?_, ?_, ?_, ?_, ?_, ?_, ?_, ?_, ?_, ?_, ?_, ?_, ?_, ?_, ?_, ?_⟩
+    refine ⟨?_, ?_, ?_, ?_, ?_, ?_, ?_, ?_, ?_, ?_, ?_, ?_, ?_, ?_, ?_, ?_, ?_, ?_, ?_, ?_, ?_, ?_, ?_⟩
     all_goals tl_auto
   refine ⟨by rw [e_wr, e_sl]; exact M.wr, ?_, ?_, excl_step x inp M hxi, ?_, ?_, ?_, ?_, ?_, ?_, ?_, ?_, ?_⟩
   · intro s; rw [e_nc, e_cl]; simp only [upd]; split
@@ -503,13 +508,14 @@ theorem minv_run_dr1 {σ : St} (x inp : Nat) (M : MInv σ) (R : RegInv σ) (hpc 
   have e_est : (stepRun σ x inp).2.est = σ.est := by simp only [stepRun, hpc, hout, if_false]; split <;> rfl
   have e_hs : (stepRun σ x inp).2.hs = σ.hs := by simp only [stepRun, hpc, hout, if_false]; split <;> rfl
   have Lx : TLoc (stepRun σ x inp).2 ((stepRun σ x inp).2.th x) := by
-    obtain ⟨l1, l2, l3, l4, l5, l6, l7, l8, l9, l10, l11, l12, l13, l14, l15, l16, l17, l18, l19, l20, l21, l22⟩ := M.thr x
-    rw [hpc] at l1 l2 l3 l4 l5 l6 l7 l8 l9 l10 l11 l12 l13 l14 l15 l16 l17 l18 l19 l20 l21 l22
+    obtain ⟨l1, l2, l3, l4, l5, l6, l7, l8, l9, l10, l11, l12, l13, l14, l15, l16, l17, l18, l19, l20, l21, l22, l23⟩ := M.thr x
+    simp only [Th.sgOn] at l23
+    rw [hpc] at l1 l2 l3 l4 l5 l6 l7 l8 l9 l10 l11 l12 l13 l14 l15 l16 l17 l18 l19 l20 l21 l22 l23
     have hlen := M.nc (σ.th x).s
     simp only [stepRun, hpc, hout, if_false]
     split
     all_goals
-      refine ⟨?_, ?_, ?_, ?_, ?_, ?_, ?_, ?_, ?_, ?_, ?_, ?_, ?_, ?_, ?_, ?_, ?_, ?_, ?_, ?_, ?_, ?_⟩
+      refine ⟨?_, ?_, ?_, ?_, ?_, ?_, ?_, ?_, ?_, ?_, ?_, ?_, ?_, ?_, ?_, ?_, ?_, ?_, ?_, ?_, ?_, ?_, ?_⟩
     all_goals first | tl_auto | skip
     · rename_i hc
       intro _
